@@ -25,6 +25,12 @@ def plan(tier):
                     if pen == 0.5:
                         sh.append(('native', gi, n, ('dev', sprops.V4, 0.0, d, cap), dict(unary_penalty=pen, nbest=nbest), J))
                         sh.append(('full', gi, n, ('dev', sprops.V4, -1.0, 1 if N > 12 else 2, 1200 if tier == 'quick' else 10000), dict(unary_penalty=pen, nbest=nbest), J))
+        for base in ('g1', 'g2'):
+            for n in (2, 3):
+                N = S.n_entries(n, T)
+                d = (2 if N <= 16 else 1) + (1 if tier == 'thorough' and N <= 30 else 0)
+                for nbest in (1, 3):
+                    sh.append(('native', gi, n, ('dev', sprops.V4, base, d, 5000 if tier == 'quick' else 60000), dict(unary_penalty=0.5, nbest=nbest), J))
         if T > 1:
             # beam settings: many sentences through one process with tags left outside the beam
             for cfgb in (dict(pruning_size=1), dict(use_beta=True, beta=0.01), dict(pruning_size=2, use_beta=True, beta=0.2)):
